@@ -41,11 +41,11 @@ for nm, d, extra, tiers in (("xml_roundtrip_tree", {"FIX": 0}, [], {"quick": {},
                             ("xml_roundtrip_distances", {"FIX": 0, "WITH_DIST": 2}, ["hwloc___xml_v2export_distances", "hwloc__xml_v2export_distances", "hwloc__xml_import_distances", "hwloc_internal_distances_add_by_index", "hwloc_internal_distances_refresh"], {"quick": {}, "thorough": {}}),
                             ("xml_roundtrip_memattrs_cpuset", {"FIX": 0, "WITH_MEMATTR": 2}, ["hwloc__xml_export_memattrs", "hwloc__xml_import_memattr"], {"thorough": {"timeout": 2400}}),
                             ("xml_roundtrip_memattrs_api", {"FIX": 0, "WITH_MEMATTR": 1}, ["hwloc__xml_export_memattrs", "hwloc__xml_import_memattr", "hwloc_memattr_set_value"], {"thorough": {"timeout": 2400}}),
-                            ("xml_roundtrip_memattrs", {"FIX": 0, "WITH_MEMATTR": 3}, ["hwloc__xml_export_memattrs", "hwloc__xml_export_memattr_target", "hwloc__xml_import_memattr", "hwloc__xml_import_memattr_value", "hwloc_internal_memattr_set_value"], {"quick": {}, "thorough": {}}),
+                            ("xml_roundtrip_memattrs", {"FIX": 0, "WITH_MEMATTR": 3}, ["hwloc__xml_export_memattrs", "hwloc__xml_export_memattr_target", "hwloc__xml_import_memattr", "hwloc__xml_import_memattr_value", "hwloc_internal_memattr_set_value"], {"thorough": {"timeout": 2400}}),
                             ("xml_roundtrip_cpukinds", {"FIX": 0, "WITH_CPUKINDS": 1}, ["hwloc__xml_export_cpukinds", "hwloc__xml_import_cpukind", "hwloc_internal_cpukinds_register", "hwloc_internal_cpukinds_rank"], {"quick": {}, "thorough": {}})):
     HARNESSES.append(dict(XT, name=nm, entry="h_xml_roundtrip", defines=d, encoded=XT_ENC + extra, tiers=tiers, cost=120,
                           bounds="one fixture topology built by the real core (%s); the run is concrete: CBMC interprets export -> element tree -> import inside the real discovery pipeline -> comparison -> re-export, checking every access" % ("9 objects" if d.get("FIX") == 0 else "9 objects + bridge/PCI/OS device" if d.get("FIXM") == 32 else "13 objects: L2, Group(dont_merge), memory-side cache, page types, Misc, names, subtype, object and topology infos"),
-                          core=(d.get("FIXM") != 32 and d.get("WITH_MEMATTR") not in (1, 2))))
+                          core=(d.get("FIXM") != 32 and not d.get("WITH_MEMATTR"))))
 XI = dict(XT, unwind=12)
 XI["unwindset"] = dict(XT_UW, **dict({"h_import_distances.%d" % k: 18 for k in range(6)}, **{"dist_case.0": 5, "dist_case.1": 5, "dist_case.2": 5, "dist_case.3": 5, "dist_case.4": 17, "dist_case.5": 17}))
 C06_EXTRA = []      # the crafted-input harnesses belong to C06 (specs/C06.py takes them from here)
